@@ -432,7 +432,7 @@ def c08_n1(ctx):
         eb = ExprBuilder(ctx.prog, f, user_stop=True)
         e = simp(eb.rvalue(s["rv"]))
         a, z = e[5]
-        base = "RecvTransaction::%s:SegmentRequestForm" % f.name
+        base = "RecvTransaction::%s:SegmentRequestForm" % (f.name if f.kind != "Closure" else short(f.root or f.norm).split("::")[-1])
         cnt[base] = cnt.get(base, 0) + 1
         key = base + ("#%d" % cnt[base] if cnt[base] > 1 else "")
         ebf = ExprBuilder(ctx.prog, f)
@@ -451,6 +451,25 @@ def c08_n1(ctx):
                 yield ok("C08-N1", key, at(f, s["span"]["line"]), "pair yielded by %s" % src[0][:120])
                 continue
             yield bad("C08-N1", key, at(f, s["span"]["line"]), "request built from an iterator that is not Segments::gaps(..): %s" % src)
+            continue
+        # (i') built in the closure of `gaps(..).into_iter().map(|(a, b)| SegmentRequestForm{a, b})`
+        if f.kind == "Closure" and f.parent in ctx.prog.by_norm:
+            par = ctx.prog.by_norm[f.parent]
+            ebp = ExprBuilder(ctx.prog, par)
+            src = None
+            for pb, pt in par.all_calls():
+                ce = ebp.call(pb, pt)
+                if (callee_name(ce) or "").split("::")[-1] in ("map",) and len(ce[3]) == 2 and ce[3][1][0] == "agg" and ce[3][1][1] == "closure" and ce[3][1][2] == f.norm:
+                    src = sstr(ce[3][0])
+            params = [vn for vn, l, pj in f.var_places if not pj and 2 <= l <= f.arg_count]
+            comps = {expr_str(a), expr_str(z)}
+            pa = {sstr(x) for x in eb.var_defs(expr_str(a))} if re.match(r"^\w+$", expr_str(a)) else {expr_str(a)}
+            pz = {sstr(x) for x in eb.var_defs(expr_str(z))} if re.match(r"^\w+$", expr_str(z)) else {expr_str(z)}
+            is_pair = any(re.match(r"^_?\w*\.0$", x) for x in pa | {expr_str(a)}) and any(re.match(r"^_?\w*\.1$", x) for x in pz | {expr_str(z)})
+            if src and re.match(r"^IntoIterator>::into_iter\(Segments::gaps\(", src) and is_pair:
+                yield ok("C08-N1", key, at(f, s["span"]["line"]), "pair mapped from %s" % src[:120])
+                continue
+            yield bad("C08-N1", key, at(f, s["span"]["line"]), "request built in a closure that is not mapped over Segments::gaps(..): source %s, fields %s / %s" % (src, sorted(pa), sorted(pz)))
             continue
         # (ii) (prev_end, offset) under offset > prev_end
         fl = Flow(ctx.prog, ctx.mods, f, track, user_stop=True)
@@ -558,8 +577,10 @@ def c08_n4(ctx):
     ebu = ExprBuilder(ctx.prog, f, user_stop=True)
     rets = [sstr(ebu._def_expr(d, 0, (0,))) for d in f.defs(0) if d[0] in ("assign", "call")]
     pushes = [simp(ebu.call(b, t)) for b, t in f.all_calls() if (ctx.prog.callee_of(t)[1] or ctx.prog.callee_of(t)[0] or "").endswith("VecDeque::push_back")]
-    if len(rets) == 1 and pushes and all(expr_str(p[3][0]) == rets[0] for p in pushes) and len(pushes) >= 2:
-        yield ok("C08-N4", "get_all_naks:collect", at(f), "%d pushes into the returned list" % len(pushes))
+    extends = [simp(ebu.call(b, t)) for b, t in f.all_calls() if (ctx.prog.callee_of(t)[1] or ctx.prog.callee_of(t)[0] or "").split("::")[-1] == "extend"]
+    ext_ok = [x for x in extends if len(rets) == 1 and expr_str(x[3][0]) == rets[0] and re.match(r"^Iterator::map\(IntoIterator>::into_iter\(Segments::gaps\(", sstr(ExprBuilder(ctx.prog, f).operand({"k": "copy", "place": {"local": 0, "proj": [], "ty": ""}})) if False else sstr(x[3][1]))]
+    if len(rets) == 1 and pushes and all(expr_str(p[3][0]) == rets[0] for p in pushes) and (len(pushes) >= 2 or ext_ok):
+        yield ok("C08-N4", "get_all_naks:collect", at(f), "%d pushes / %d gap-extends into the returned list" % (len(pushes), len(ext_ok)))
     else:
         yield bad("C08-N4", "get_all_naks:collect", at(f), "the gaps are not all pushed into the returned list (returns %s, pushes into %s)" % (rets, [expr_str(p[3][0]) for p in pushes]))
     # writers of self.naks: get_all_naks(), pushes of checked requests, drain
@@ -607,6 +628,10 @@ def c08_n5(ctx):
             cnt[base] = cnt.get(base, 0) + 1
             key = base + ("#%d" % cnt[base] if cnt[base] > 1 else "")
             why = NAK_QUEUE_OK.get((fname, last))
+            if last == "extend" and fname in ("handle_timeout", "get_all_naks"):
+                arg = sstr(ExprBuilder(ctx.prog, f).call(b, t)[3][1]) if len(e[3]) > 1 else ""
+                if re.match(r"^Iterator::map\(IntoIterator>::into_iter\(Segments::gaps\(", arg):
+                    why = "extended with requests mapped from Segments::gaps(..) (checked by C08-N1)"
             if why:
                 yield ok("C08-N5", key, at(f, t["span"]["line"]), why)
             else:
